@@ -114,7 +114,7 @@ def r1(ctx, chk):
                    "%s tells ASCII digits from other decimal digits before the numerals are translated: the same number written in "
                    "another digit script takes the other branch" % hit,
                    key={"function": fk, "construct": "raw digit test " + " ".join(ast.unparse(node).split())[:40]},
-                   file=f.file, function=f.qual, line=node.lineno, text=" ".join(ast.unparse(node).split())[:120])
+                   file=f.file, function=f.qual, line=node.lineno, text=" ".join(ast.unparse(node).split())[:120], positive=True)
     chk.floor(rule, n, 8, "regex literals applied to the raw date string")
     chk.note("table-driven timezone regexes (patterns not literal) are outside R1: they only build an alternative string for the applicability test")
 
